@@ -268,6 +268,7 @@ def check_bad(case):
 
 
 ARMS = [
-    HypArm("schedule", lambda tier: _case(tier), check_schedule, budget={"quick": 1500, "thorough": 100000}),
+    HypArm("schedule", lambda tier: _case(tier), check_schedule, budget={"quick": 2400, "thorough": 100000},
+           shards={"quick": 8, "thorough": 48}),
     HypArm("bad_copy", lambda tier: _bad_case(tier), check_bad, budget={"quick": 300, "thorough": 3000}),
 ]
